@@ -27,6 +27,7 @@ type progNode struct {
 	Methods  []string   `json:"methods,omitempty"`  // combo: verbs in call order (repeats allowed); routes: method names as spelled
 	PerM     []int      `json:"per_method,omitempty"`
 	PerG     []string   `json:"per_method_group,omitempty"`              // combo: the k-th verb is declared inside Group(PerG[k]) (""=same scope); the Combo value itself was created outside
+	PerA     []int      `json:"per_method_autohead,omitempty"`           // combo: AutoHead is switched on (1) / off (2) right before the k-th verb is declared (0 = untouched): a GET is registered when it is declared, not when the Combo was created
 	Share    int        `json:"share_prefix,omitempty"`                  // verb: >0 = pass the first Share handlers of the previous verb route's slice (same backing array, same handlers) instead of fresh ones
 	Again    string     `json:"same_arguments_again_for_path,omitempty"` // routes/multi: a second Routes call for this path is made with the very same argument slice (extra methods + handlers)
 	Spelling string     `json:"spelling,omitempty"`                      // routes: comma | multi
@@ -90,6 +91,11 @@ func genProgBody(rng *rand.Rand, depth int) []progNode {
 					g = []string{"/cg", "/g1", ""}[rng.Intn(3)]
 				}
 				pn.PerG = append(pn.PerG, g)
+				a := 0
+				if rng.Intn(5) == 0 {
+					a = 1 + rng.Intn(2)
+				}
+				pn.PerA = append(pn.PerA, a)
 			}
 			out = append(out, pn)
 		case k < 16:
@@ -211,6 +217,9 @@ func (fl *flattener) body(nodes []progNode) {
 			for j, m := range n.Methods {
 				fl.step++
 				ids := fl.ids(n.PerM[j])
+				if j < len(n.PerA) && n.PerA[j] != 0 {
+					fl.auto = n.PerA[j] == 1
+				}
 				if used[m] {
 					fl.refusedC[fl.step] = m
 					continue
@@ -384,6 +393,9 @@ func (x *progExec) body(nodes []progNode) {
 			for j, m := range n.Methods {
 				x.step++
 				hs := x.hs(n.PerM[j], 0)
+				if j < len(n.PerA) && n.PerA[j] != 0 {
+					f.AutoHead(n.PerA[j] == 1)
+				}
 				if cb == nil {
 					continue
 				}
@@ -664,6 +676,12 @@ func progFeatures(nodes []progNode, depth int, inGroup bool) (bool, []string) {
 				nt = true
 				feats = append(feats, "combo>=2")
 			}
+			for _, a := range n.PerA {
+				if a != 0 {
+					feats = append(feats, "autohead-switched-between-combo-verbs")
+					break
+				}
+			}
 			if n.Spare > 0 && n.NH > 0 && len(n.Methods) >= 2 {
 				feats = append(feats, "combo-spare-capacity")
 			}
@@ -718,7 +736,7 @@ func runC11(r *core.Run) {
 		judgeProg(w, c)
 	})
 	r.Gate("distinct_nontrivial", r.NonTrivialCount(), 2000)
-	for _, k := range []string{"feature:nesting>=2", "feature:combo>=2", "feature:combo-spare-capacity", "feature:autohead-inside-group", "feature:routes-comma", "feature:routes-multi", "feature:any", "feature:group-handlers", "feature:siblings-after-nested-group", "feature:wrapper-changed-inside-group", "feature:wrapper", "feature:headers-chained", "feature:routes-arguments-passed-again", "combo-refused-repeated-method", "statement-refused-in-both"} {
+	for _, k := range []string{"feature:nesting>=2", "feature:combo>=2", "feature:combo-spare-capacity", "feature:autohead-inside-group", "feature:routes-comma", "feature:routes-multi", "feature:any", "feature:group-handlers", "feature:siblings-after-nested-group", "feature:wrapper-changed-inside-group", "feature:wrapper", "feature:headers-chained", "feature:routes-arguments-passed-again", "feature:autohead-switched-between-combo-verbs", "combo-refused-repeated-method", "statement-refused-in-both"} {
 		r.GateCounter(k, 20)
 	}
 	r.GateCounter("requests-compared", int64(n)*20)
